@@ -222,3 +222,50 @@ def rule_rm(prog: Program, report: Report) -> None:
                     report.violate("RM", fn, c, f"substring test `{src(c)[:80]}`", f"`{src(right)[:50]}` is a str, so `in` tests for a substring: a name that is a fragment of another token ('block' in 'topblock') matches; token vocabularies (groups, mark names) must be split into a list first", what="membership in a token vocabulary is tested on a split list")
     report.ob("RM", "package", f"no variable-in-str substring test ({lit} literal-in-str tests are character/separator probes)")
     report.count("RM literal-in-str probes", lit)
+
+
+def rule_rw(prog: Program, report: Report) -> None:
+    """HTML whitespace is [ \\t\\r\\n\\f]; Python's str.strip family and `\\s` also
+    eat NBSP, EM SPACE ... which are content.  In the functions that edit text
+    content (NodeContext.finish, ParseContext.add_text_node) only the explicit
+    HTML class may be used."""
+    report.rules.append("RW")
+    keys = ["prosemirror/model/from_dom.py::NodeContext.finish", "prosemirror/model/from_dom.py::ParseContext.add_text_node"]
+    n = 0
+    for k in keys:
+        fn = prog.func(k)
+        for c in walk_own(fn.node):
+            if isinstance(c, ast.Call) and isinstance(c.func, ast.Attribute) and c.func.attr in ("strip", "rstrip", "lstrip") and not c.args:
+                n += 1
+                report.violate("RW", fn, c, f"`{src(c)[:60]}` strips Unicode whitespace", "str.strip/rstrip/lstrip without an argument also remove NBSP, EM SPACE, IDEOGRAPHIC SPACE ...; HTML collapsible whitespace is only [ \\t\\r\\n\\f], so document text loses characters on import", what="text content is trimmed with the HTML whitespace class only")
+            if isinstance(c, ast.Constant) and isinstance(c.value, str) and "\\s" in c.value and isinstance(parent_of(c), ast.Call):
+                n += 1
+                report.violate("RW", fn, c, f"regex `{c.value}` uses \\s", "\\s matches Unicode whitespace; HTML collapsible whitespace is only [ \\t\\r\\n\\f]", what="text content is matched with the HTML whitespace class only")
+        pats = [c.value for c in walk_own(fn.node) if isinstance(c, ast.Constant) and isinstance(c.value, str) and "\\t\\r\\n" in c.value.encode("unicode_escape").decode()]
+        report.ob("RW", k, f"whitespace is handled with explicit HTML classes ({len(pats)} patterns), no str.strip / \\s")
+    report.count("RW offending whitespace operations", n)
+
+
+def rule_rz(prog: Program, report: Report, armed: tuple[str, ...] = ("prosemirror/model/diff.py",)) -> None:
+    """A slice bound that is the negation of a variable expression (`x[a:-e]`)
+    is wrong when e == 0: `-0` is 0, so the slice is empty instead of reaching
+    the end."""
+    report.rules.append("RZ")
+    n = 0
+    for fn in prog.all_funcs():
+        for s_ in walk_own(fn.node):
+            if isinstance(s_, ast.Subscript) and isinstance(s_.slice, ast.Slice):
+                for b in (s_.slice.lower, s_.slice.upper):
+                    if b is None:
+                        continue
+                    neg = isinstance(b, ast.UnaryOp) and isinstance(b.op, ast.USub) and not isinstance(b.operand, ast.Constant)
+                    neg = neg or (isinstance(b, ast.BinOp) and isinstance(b.op, (ast.Mult, ast.Sub)) and isinstance(b.left, ast.UnaryOp) and isinstance(b.left.op, ast.USub) and b is s_.slice.upper and not any(isinstance(x, ast.Constant) and isinstance(x.value, int) and x.value > 0 and isinstance(b.op, ast.Sub) for x in [b.right]))
+                    if not neg:
+                        continue
+                    if fn.module.rel in armed:
+                        n += 1
+                        report.violate("RZ", fn, s_, f"`{src(s_)[:70]}` has a negated variable bound", "when the negated expression is 0 the bound is 0, not 'the end': the slice is empty (the `-0` pitfall); index from the length instead", what="no negated-variable slice bound")
+                    else:
+                        report.xref.setdefault("RZ negated-variable slice bounds outside the armed files", []).append(f"{fn.key}: {src(s_)[:60]}")
+    report.ob("RZ", ",".join(armed), "no slice bound is a negated variable expression")
+    report.count("RZ negated-variable slice bounds (armed files)", n)
